@@ -181,7 +181,7 @@ func genPlanPart(r *hlib.Run, sb *hlib.StdBuild) {
 	rd := r.Rand.Fork()
 	n := 12
 	if r.Thorough {
-		n = 150
+		n = 120
 	}
 	work := filepath.Join(sb.Scratch, "verif-c20", "gp")
 	fakeBin := filepath.Join(work, "fakebin")
@@ -450,7 +450,7 @@ func releasePart(r *hlib.Run, sb *hlib.StdBuild) {
 	rd := r.Rand.Fork()
 	n := 30
 	if r.Thorough {
-		n = 600
+		n = 300
 	}
 	work := filepath.Join(sb.Scratch, "verif-c20", "rel")
 	for ci := 0; ci < n; ci++ {
@@ -546,7 +546,7 @@ func releasePart(r *hlib.Run, sb *hlib.StdBuild) {
 		out, bytes1 := run()
 		r.Op("release "+strings.Join(toks, " "), out)
 		r.Count("release:" + strings.Fields(out)[0])
-		if strings.HasPrefix(out, "ok") && (ci%3 == 0 || r.Thorough) {
+		if strings.HasPrefix(out, "ok") && ci%3 == 0 {
 			out2, bytes2 := run()
 			if out2 != out || !bytes.Equal(bytes1, bytes2) {
 				r.Fail("release:not-repeatable", "`wuffs-c genrelease` with the same argument list gives two different release files", fmt.Sprintf("cd %s && wuffs-c genrelease %s\nincludes: %v\nfirst difference at %s", dir, strings.Join(args, " "), incs, firstDiffLine(bytes1, bytes2)))
